@@ -19,6 +19,7 @@ import (
 	"crypto/sha256"
 	"encoding/json"
 	"fmt"
+	"os"
 	"strconv"
 	"strings"
 	"sync"
@@ -28,6 +29,7 @@ import (
 	"go.minekube.com/gate/pkg/gate"
 	"go.minekube.com/gate/pkg/gate/config"
 	"go.minekube.com/gate/pkg/util/configutil"
+	"gopkg.in/yaml.v3"
 
 	"verifharness/hx"
 )
@@ -121,8 +123,8 @@ var routeSets = [][]liteconfig.Route{
 	{route("*.example.test", "b3:25565", 0), route("play.example.test", "backend.example.test:25565", 30*time.Second)},
 	{{Host: configutil.SingleOrMulti[string]{"a.test", "b.test"}, Backend: configutil.SingleOrMulti[string]{"x:1", "y:2"}, Strategy: liteconfig.StrategyRandom}},
 	{route("play.example.test", "backend.example.test:25565", 31*time.Second)},
-	{{Backend: configutil.SingleOrMulti[string]{"nohost:1"}}},                          // invalid: no host
-	{{Host: configutil.SingleOrMulti[string]{"h"}, Backend: configutil.SingleOrMulti[string]{"[bad"}}}, // invalid: address
+	{{Backend: configutil.SingleOrMulti[string]{"nohost:1"}}},                                                                                  // invalid: no host
+	{{Host: configutil.SingleOrMulti[string]{"h"}, Backend: configutil.SingleOrMulti[string]{"[bad"}}},                                         // invalid: address
 	{route("h", "b:1", 0), {Host: configutil.SingleOrMulti[string]{"h"}, Backend: configutil.SingleOrMulti[string]{"b:1"}, Strategy: "bogus"}}, // invalid
 	{},  // invalid in Lite mode: no routes
 	nil, // same content as {} (omitempty)
@@ -345,6 +347,136 @@ func concCase(r *hx.Rng, base *config.Config, n int) {
 	run.Case("conc", fmt.Sprintf("conc %d %s %d %s", ct.rest, b01(ct.lite), ct.routes, strings.Join(toks, ";")), out)
 }
 
+// ---------- through the API handler (ConfigHandlerImpl.ApplyConfig) ----------
+
+var apiSeq int
+
+type apiForm struct {
+	doc   *string // complete document
+	patch *string // merge patch
+}
+
+func strp(s string) *string { return &s }
+
+func routesPatch(rs []liteconfig.Route) string {
+	if rs == nil {
+		rs = []liteconfig.Route{}
+	}
+	return `{"config":{"lite":{"routes":` + mustJSON(rs) + `}}}`
+}
+
+func genAPIForm(r *hx.Rng, g *gate.Gate, h *gate.ConfigHandlerImpl, base *config.Config) apiForm {
+	switch r.Intn(14) {
+	case 0, 1: // the current document, re-submitted
+		payload, _, err := gate.C35GetConfig(h)
+		if err != nil {
+			panic(err)
+		}
+		return apiForm{doc: &payload}
+	case 2, 3:
+		return apiForm{patch: strp(`{}`)}
+	case 4: // the routes in effect, sent again
+		snap, _, _ := g.ConfigSnapshot()
+		return apiForm{patch: strp(routesPatch(snap.Config.Lite.Routes))}
+	case 5, 6, 7:
+		return apiForm{patch: strp(routesPatch(hx.Pick(r, routeSets[:6])))}
+	case 8:
+		return apiForm{patch: strp(routesPatch(hx.Pick(r, routeSets)))}
+	case 9:
+		return apiForm{patch: strp(hx.Pick(r, []string{`{"config":{"bind":"127.0.0.1:25566"}}`, `{"config":{"lite":{"enabled":false}}}`,
+			`{"config":{"status":{"showMaxPlayers":7}}}`, `{"config":{"bind":""}}`, `{"config":{"quota":{"logins":{"burst":0}}}}`,
+			`{"healthService":{"bind":"0.0.0.0:9191"}}`, `{"config":{"bind":null}}`}))}
+	case 10:
+		b, err := yaml.Marshal(genCandidate(r, base))
+		if err != nil {
+			panic(err)
+		}
+		return apiForm{doc: strp(string(b))}
+	case 11:
+		return apiForm{patch: strp(hx.Pick(r, []string{`{`, `{"zzz":1}`, `[1]`, `{"config":{"lite":{"routes":"x"}}}`}))}
+	case 12:
+		return apiForm{doc: strp(hx.Pick(r, []string{`not: [valid`, `zzz: 1`, `config: 5`}))}
+	default:
+		return apiForm{} // no input at all
+	}
+}
+
+// apiCase resolves the candidate exactly as the handler does (strict decode, resp. merge patch on the effective
+// configuration — through the C36/C37 hooks), reports its content, then sends the request to the real handler.
+func apiCase(r *hx.Rng, s *session, h *gate.ConfigHandlerImpl, path string, base *config.Config) {
+	form := genAPIForm(r, s.g, h, base)
+	snap, cur, err := s.g.ConfigSnapshot()
+	if err != nil {
+		panic(err)
+	}
+	candTok := "u"
+	var cand *config.Config
+	switch {
+	case form.doc != nil:
+		var c config.Config
+		if gate.C37DecodeConfigStrict([]byte(*form.doc), ".yaml", &c) == nil {
+			cand = &c
+		}
+	case form.patch != nil:
+		if c, err := gate.C36MergeConfigPatch(snap, *form.patch); err == nil {
+			cand = c
+		}
+	}
+	if cand != nil {
+		d := describe(cand)
+		candTok = fmt.Sprintf("%d,%s,%d,%s", d.ct.rest, b01(d.ct.lite), d.ct.routes, b01(d.valid))
+	}
+	var ifMatch string
+	switch r.Intn(10) {
+	case 0:
+		ifMatch = "not-a-version"
+	case 1, 2:
+		ifMatch = hx.Pick(r, s.seenVers) // possibly stale
+	case 3:
+		ifMatch = ""
+	case 4:
+		ifMatch = strings.ToUpper(cur)
+	default:
+		ifMatch = cur
+	}
+	persist := r.Chance(1, 3)
+	os.Remove(path)
+	out := hx.Guard(20*time.Second, func() string {
+		ver, code := gate.C35ApplyConfig(h, form.doc, form.patch, ifMatch, persist)
+		file := "-"
+		if b, err := os.ReadFile(path); err == nil {
+			// the handler persists yaml.Marshal(candidate): compare byte for byte
+			file = "other"
+			if cand != nil {
+				if want, err := yaml.Marshal(cand); err == nil && string(want) == string(b) {
+					file = "cand"
+				}
+			}
+		}
+		return code + " " + versionID(ver) + " file=" + file + " | " + state(s.g)
+	})
+	run.Case("api", fmt.Sprintf("api %s %s %s", versionID(ifMatch), candTok, b01(persist)), out)
+	s.remember()
+}
+
+func apiSession(r *hx.Rng, steps int) {
+	base := baseConfig(true)
+	s, _ := newSession(base)
+	apiSeq++
+	path := fmt.Sprintf("%s/api-config-%d.yml", run.OutDir, apiSeq)
+	h := gate.NewConfigHandler(s.g, path)
+	for i := 0; i < steps; i++ {
+		if r.Chance(1, 6) { // another client changes the routes behind the API client's back
+			c := *base
+			c.Config.Lite.Routes = cloneRoutes(hx.Pick(r, routeSets[:6]))
+			s.apply("api-seq", r, &c, false)
+			continue
+		}
+		apiCase(r, s, h, path, base)
+	}
+	os.Remove(path)
+}
+
 func main() {
 	run = hx.Start()
 	r := run.Rng
@@ -399,6 +531,9 @@ func main() {
 				s.apply("seq", r, genCandidate(r, base), r.Chance(1, 2))
 			}
 		}
+	}
+	for i := run.Scale(12, 120); i > 0; i-- {
+		apiSession(r, run.Scale(40, 60))
 	}
 	for i := run.Scale(300, 3000); i > 0; i-- {
 		concCase(r, baseConfig(true), 2+r.Intn(5))
